@@ -63,6 +63,18 @@ def run(tier, replay=None):
                     r.violation("%s:n%d:line%d" % (name, n, e["i"]), "aifeyn_%d.txt line %d is %.12g but the tree on line %d (%s) has code %.12g (%s)" % (
                         n, e["i"], L.aifeyn[e["i"]], e["i"], e["labels"], exp, codes[e["id"]]), {"runname": name, "n": n, "line": e["i"]})
         r.add("library", evaluations=len(lines), nontrivial=sum(1 for e in lines if e["i"] >= len(L.orig_trees)), traces=1)
+        if (name, n) == ("core_maths", 5):
+            # the library regenerated into the SAME directory (an interrupted job re-run): alignment must survive
+            L2, _ = common.gen_library(r, s, name, n)
+            if L2 is not None:
+                ev2, failed2, det2, codes2 = common.judge_library(r, L2, "%s_n%d_regenerated" % (name, n), common.C08_CLAUSES, want_code=True, c02=False, c03=False)
+                for i, cl in sorted(failed2.items())[:5]:
+                    r.violation("%s:n%d:regenerated:header" % (name, n), "after generating twice into the same directory Library.tla clauses %s are violated: %s" % (cl, det2[i]), {"runname": name, "n": n})
+                bad2 = [e["i"] for e in ev2 if e["kind"] == "line" and e["i"] < len(L2.aifeyn) and not close(L2.aifeyn[e["i"]], libproj.code_value(codes2[e["id"]]))]
+                if bad2:
+                    r.violation("%s:n%d:regenerated:lines" % (name, n), "after generating twice into the same directory %d lines of aifeyn_%d.txt no longer belong to the tree on the same line (first: line %d)" % (
+                        len(bad2), n, bad2[0]), {"runname": name, "n": n, "lines": bad2[:20]})
+                r.add("library_regenerated", evaluations=len(ev2), nontrivial=1, traces=1)
     r.cov["rule"] = ("(A) every well-formed label list with <= %d labels over a vocabulary with 2 unary, 3 binary operators, x, a0..a2 and the "
                      "integers {0,1,-1,2,-3,10}: both APIs vs the closed form evaluated from the model's integers (k, nsym, consts); non-trivial = lists "
                      "with an integer constant or two distinct parameters. (B) every line of aifeyn_n.txt vs Trees!Code of the tree on the same line "
